@@ -283,7 +283,22 @@ def scenes():
         return s
 
     out["scaled_instance"] = scaled_node
+
+    def cloud_first():
+        # a member without faces listed before (and between) the meshes
+        s = trimesh.Scene()
+        s.add_geometry(trimesh.PointCloud(np.array([[9.0, 9, 9], [8, 9, 9], [9, 8, 9]])), node_name="p0", geom_name="cloud")
+        s.add_geometry(mk_mesh(*ms["box"]), node_name="n0", geom_name="box", transform=H(tr=[1, 0, 0]))
+        s.add_geometry(trimesh.PointCloud(np.array([[-9.0, 9, 9], [-8, 9, 9]])), node_name="p1", geom_name="cloud2")
+        s.add_geometry(mk_mesh(*ms["single_face"]), node_name="n1", geom_name="tri", transform=H(RZ, [0, 5, 0]))
+        return s
+
+    out["point_clouds_before_meshes"] = cloud_first
     return out
+
+
+# scenes that only the formats able to hold their members are asked to carry
+SCENE_FORMATS = {"point_clouds_before_meshes": ("glb", "gltf", "obj")}
 
 
 def canon_tris(T, q):
@@ -307,14 +322,14 @@ def _w_scene(task):
         want = np.asarray(s.triangles)
         t.evaluations += 1
         t.nontrivial_count += 1
-        before = {k: (np.array(g.vertices).tobytes(), np.array(g.faces).tobytes()) for k, g in s.geometry.items()}
+        before = {k: (np.array(g.vertices).tobytes(), np.array(getattr(g, "faces", [])).tobytes()) for k, g in s.geometry.items()}
         flat0 = {n: np.array(s.graph[n][0]) for n in s.graph.nodes_geometry}
         try:
             data = s.export(file_type=ft)
         except Exception as e:
             t.violation(f"scene export raises {type(e).__name__} [{ft}; {sname}]", case, {"exc": repr(e)[:300]})
             return t
-        after = {k: (np.array(g.vertices).tobytes(), np.array(g.faces).tobytes()) for k, g in s.geometry.items()}
+        after = {k: (np.array(g.vertices).tobytes(), np.array(getattr(g, "faces", [])).tobytes()) for k, g in s.geometry.items()}
         if before != after or any(not np.array_equal(flat0[n], s.graph[n][0]) for n in flat0):
             t.violation(f"scene export modifies the scene [{ft}]", case, {})
         try:
@@ -332,7 +347,7 @@ def _w_scene(task):
         q = 1e-3 * max(1.0, scale) * 1e-3  # placements compared to 1e-6 of the scene size (float32 storage)
         parents = set(s.graph.transforms.parents.values())
         feature = "a node with geometry has children" if any(n in parents for n in s.graph.nodes_geometry) else "geometry only at leaf nodes"
-        if any(len(g.faces) == 0 for g in s.geometry.values()):
+        if any(hasattr(g, "faces") and len(g.faces) == 0 for g in s.geometry.values()):
             feature = "scene holds an empty mesh"
         if got.shape != want.shape:
             t.violation(f"scene round trip changes the number of placed triangles [{ft}; {feature}]", case, {"got": len(got), "want": len(want)})
@@ -478,7 +493,7 @@ def replay(case):
 
 def main(run):
     tasks = [(_w_mesh, (g, ft)) for g in list(meshes()) + ["big_index"] for ft in MESH_FORMATS]
-    tasks += [(_w_scene, (s, ft, via)) for s in scenes() for ft in ("glb", "gltf", "3mf", "obj", "dict", "dict64", "stl", "ply") for via in ("fileobj", "path")]
+    tasks += [(_w_scene, (s, ft, via)) for s in scenes() for ft in ("glb", "gltf", "3mf", "obj", "dict", "dict64", "stl", "ply") if ft in SCENE_FORMATS.get(s, (ft,)) for via in ("fileobj", "path")]
     tasks += [(_w_points, None), (_w_paths, None)]
     run.log(f"{len(tasks)} tasks")
     res = harness.pmap(_run, tasks)
